@@ -994,3 +994,10 @@ m('K2-constructor-dispatch-same-variant-on-both-branches', 'C02', 'K2', 'PyTreeS
 m('K2-recursion-lambda-forgets-the-sort-mode', 'C02', 'K2', 'FlattenIntoImpl/DictShouldBeSorted', 'src/treespec/flatten.cpp',
   """            found_custom |= FlattenIntoImpl<NoneIsLeaf, DictShouldBeSorted>(child,""",
   """            found_custom |= FlattenIntoImpl<NoneIsLeaf, true>(child,""")
+m('K8-broadcast-rejects-a-treespec-at-the-limit', 'C16', 'K8', 'BroadcastToCommonSuffixImpl/depth-check', 'src/treespec/treespec.cpp',
+  """    const ssize_t& other_pos,
+    const ssize_t& depth) {
+    if (depth > MAX_RECURSION_DEPTH) [[unlikely]] {""",
+  """    const ssize_t& other_pos,
+    const ssize_t& depth) {
+    if (depth >= MAX_RECURSION_DEPTH) [[unlikely]] {""")
